@@ -10,7 +10,7 @@
    sets are the propagation of their records' direct facts).  That the record maps and the
    information content also come back equal is decided per case by the correspondence run and
    spec_C07; that part is not yet one theorem. *)
-From HpoV Require Import Gen.Consts Model.Base Model.Group Model.Onto Model.Binary Proofs.GroupP Proofs.BinaryP Proofs.CodecP Proofs.SectionP Proofs.RoundTripP Proofs.ClosureP Proofs.LinkP Proofs.AnnotP Model.Script.
+From HpoV Require Import Gen.Consts Model.Base Model.Group Model.Onto Model.Binary Proofs.GroupP Proofs.BinaryP Proofs.CodecP Proofs.SectionP Proofs.RoundTripP Proofs.ClosureP Proofs.LinkP Proofs.AcyclicP Proofs.AnnotP Proofs.BuilderAnnotP Model.Script.
 
 Theorem C07_u32_roundtrip : forall n rest, n < 4294967296 -> u32_at (to_be32 n ++ rest) 0 = Ok n.
 Proof. exact u32_at_to_be32. Qed.
@@ -99,10 +99,22 @@ Proof. exact run_script_src_ok. Qed.
    and the is_a graph is acyclic, then after the reload every term carries, for each of the three
    kinds, exactly the same set — whatever permutation of the records the file holds *)
 Theorem C07_reload_keeps_annotations : forall icf order o o'', file_ok order o -> src_ok o ->
-  ranked (o_arena o) -> ann_ok o -> (forall l r, In r (order l) <-> In r l) ->
+  acyclic (o_arena o) -> ann_ok o -> (forall l r, In r (order l) <-> In r l) ->
   decode icf (encode_with order o) = Ok o'' ->
   Forall2 (fun t t'' => forall k, t_annots k t'' = t_annots k t) (ar_terms (o_arena o)) (ar_terms (o_arena o'')).
 Proof. exact reload_keeps_annotations. Qed.
+
+(* ALL HYPOTHESES DISCHARGED FOR BUILDER-BUILT ONTOLOGIES: whatever script built o (any calls, any
+   order, failing calls included), if the format can carry o then from_bytes (as_bytes o) — for any
+   permutation of the records — returns every term with the same id, name (cut at the limit), flags,
+   parents, children, ancestor cache and the same three annotation sets *)
+Theorem C07_builder_ontologies_roundtrip : forall icf icf' s codes o order o'',
+  run_script icf s = Ok (codes, Ok o) ->
+  file_ok order o -> (forall l r, In r (order l) <-> In r l) ->
+  decode icf' (encode_with order o) = Ok o'' ->
+  Forall2 term_kept (ar_terms (o_arena o)) (ar_terms (o_arena o'')) /\
+  Forall2 (fun t t'' => forall k, t_annots k t'' = t_annots k t) (ar_terms (o_arena o)) (ar_terms (o_arena o'')).
+Proof. exact builder_ontologies_roundtrip. Qed.
 
 Print Assumptions C07_u32_roundtrip.
 Print Assumptions C07_name_cut_bounds.
@@ -121,3 +133,4 @@ Print Assumptions C07_decode_encode_is_rebuild.
 Print Assumptions C07_reload_keeps_terms.
 Print Assumptions C07_builder_ontologies_are_sources.
 Print Assumptions C07_reload_keeps_annotations.
+Print Assumptions C07_builder_ontologies_roundtrip.
